@@ -298,6 +298,16 @@ def run(ctx):
             fld.ClearField("type_name")
         jobs.append((2000 + k, 0, req, {"transport": "rest", "params": [], "yaml": None, "ads": False}, [],
                      [sv.name for sv in fp.service], ["extended-operations", f"status-{status}"]))
+    # packages WITHOUT a version segment (two segments, one segment) and with an unusual version
+    for k, pk in enumerate([("animalia.mollusca", "mollusca.example.com"), ("solo", "solo.example.com"), ("acme.fleet.v2alpha3", "fleet.example.com")]):
+        try:
+            api = apis.conventional(env.rng("C01-unversioned", k), package=pk)
+            req = api.request("")
+        except apigen.Invalid:
+            ctx.features["invalid-candidate"] += 1
+            continue
+        jobs.append((4000 + k, 0, req, {"transport": ["grpc+rest", "grpc", "rest"][k], "params": [], "yaml": None, "ads": False}, [],
+                     [sv.name for f in api.files for sv in f.proto.service], list(api.info["features"]) + ["package-shape=" + pk[0]]))
     # a dependency package that shares a textual prefix with the API package (foo.v1beta1 used by foo.v1); the library is
     # given its own namespace so that the dependency's pb2 package does not sit inside the emitted unversioned package
     for k, (tpkg, dpkg) in enumerate([("google.example.v1", "google.example.v1beta1"), ("acme.things.v2", "acme.things.v2alpha")]):
